@@ -9,7 +9,7 @@
 EXTENDS BfdReg, TraceUtil
 
 VARIABLES l, cur, dead
-tvars == <<phase, cfg, reg, l, cur, dead>>
+tvars == <<grp, phase, cfg, reg, l, cur, dead>>
 
 NoObs == [reg |-> <<>>, gor |-> 0, srv |-> 0]
 NoRow == [ev |-> "none", err |-> "", obs |-> NoObs]
@@ -21,17 +21,20 @@ RowConf == Conf(Row.bfd, Row.mult, Row.asn)
 Take == l' = l + 1 /\ cur' = Row
 
 TrReset == /\ l <= TLen /\ Row.ev = "Reset" /\ Take /\ dead' = FALSE
-           /\ phase' = "new" /\ cfg' = [n \in Nbrs |-> Absent] /\ reg' = [n \in Nbrs |-> 0]
+           /\ phase' = "new" /\ cfg' = [n \in Nbrs |-> Absent] /\ reg' = [n \in Nbrs |-> 0] /\ grp' = Absent
 TrStart == /\ l <= TLen /\ Row.ev = "Start" /\ Take /\ StartBgp /\ UNCHANGED dead
 TrStop  == /\ l <= TLen /\ Row.ev = "Stop" /\ Take /\ StopBgp /\ UNCHANGED dead
 TrAdd   == /\ l <= TLen /\ Row.ev = "Add" /\ Take /\ AddPeer(Row.n, RowConf) /\ UNCHANGED <<phase, dead>>
 TrUpd   == /\ l <= TLen /\ Row.ev = "Upd" /\ Take /\ UpdatePeer(Row.n, RowConf) /\ UNCHANGED <<phase, dead>>
+TrAddGroup == /\ l <= TLen /\ Row.ev = "AddGroup" /\ Take /\ AddGroup(RowConf) /\ UNCHANGED dead
+TrUpdGroup == /\ l <= TLen /\ Row.ev = "UpdGroup" /\ Take /\ UpdateGroup(RowConf) /\ UNCHANGED dead
+TrAddMember == /\ l <= TLen /\ Row.ev = "AddMember" /\ Take /\ AddMember(Row.n) /\ UNCHANGED dead
 TrDel   == /\ l <= TLen /\ Row.ev = "Del" /\ Take /\ DeletePeer(Row.n) /\ UNCHANGED dead
 (* BgpServer.Stop: the whole speaker goes away, whatever was configured *)
 TrShutdown == /\ l <= TLen /\ Row.ev = "Shutdown" /\ Take /\ dead' = TRUE
-              /\ phase' = "stopped" /\ cfg' = [n \in Nbrs |-> Absent] /\ reg' = [n \in Nbrs |-> 0]
+              /\ phase' = "stopped" /\ cfg' = [n \in Nbrs |-> Absent] /\ reg' = [n \in Nbrs |-> 0] /\ UNCHANGED grp
 
-TraceNext == TrReset \/ TrStart \/ TrStop \/ TrAdd \/ TrUpd \/ TrDel \/ TrShutdown
+TraceNext == TrReset \/ TrStart \/ TrStop \/ TrAdd \/ TrUpd \/ TrDel \/ TrShutdown \/ TrAddGroup \/ TrUpdGroup \/ TrAddMember
 TraceSpec == TraceInit /\ [][TraceNext]_tvars
 
 TraceConstraint == Hwm(l)
@@ -48,7 +51,10 @@ NWant == Cardinality({n \in Nbrs : Want[n] # 0})
 Judged == cur.ev # "none" /\ cur.ev # "Reset"
 
 (* the management call itself must have succeeded: the generator only emits enabled operations *)
-Conf_OpSucceeded == Judged => cur.err = ""
+(* UpdatePeerGroup is exempt: AS OBSERVED, DeletePeer does not take a neighbour off its group's member list (the
+   request carries no group name), and a later UpdatePeerGroup then answers "neighbor that has ... doesn't
+   exist" - after it has replaced the group's configuration, which is all the model says it does *)
+Gap_OpSucceeded == (Judged /\ cur.ev # "UpdGroup") => cur.err = ""
 (* the model of the call sites agrees with what was observed (informational) *)
 Conf_Mechanism == Judged => ObsFn(cur.obs) = reg
 
@@ -57,7 +63,7 @@ Conf_Mechanism == Judged => ObsFn(cur.obs) = reg
    same operation *)
 C20_BfdHelperSet ==
   Judged => /\ {n \in Nbrs : ObsMult(cur.obs, n) # 0} = {n \in Nbrs : Want[n] # 0}
-            /\ NoteIf(NWant > 0 \/ cur.ev \in {"Del", "Stop", "Shutdown"}, <<cur.ev, Want>>)
+            /\ NoteIf(NWant > 0 \/ cur.ev \in {"Del", "Stop", "Shutdown", "UpdGroup"}, <<cur.ev, Want>>)
 (* ... and with the parameters of the current configuration, not those of an earlier one *)
 C20_BfdHelperParams ==
   Judged => \A n \in Nbrs : Want[n] # 0 /\ ObsMult(cur.obs, n) # 0 => ObsMult(cur.obs, n) = Want[n]
